@@ -531,4 +531,189 @@ Proof.
     now rewrite Hn.
 Qed.
 
+
+(** * 6. Lists of arguments and whole answers *)
+
+Lemma locals_all_some c al : locals c al = all_some (map (cc_local c) al).
+Proof.
+  unfold locals. induction al as [|a r IH]; cbn [fold_right map all_some]; [reflexivity|].
+  rewrite IH. destruct (cc_local c a), (all_some (map (cc_local c) r)); reflexivity.
+Qed.
+
+Lemma all_some_None_in A (l : list (option A)) : In None l -> all_some l = None.
+Proof.
+  induction l as [|[x|] r IH]; cbn [all_some In]; [intros []| |reflexivity].
+  intros [H|H]; [discriminate|]. now rewrite IH.
+Qed.
+
+(* the arguments of f with given live ids: defined, in order, with their own id and label *)
+Lemma with_labels_live f l : Inv f -> (forall a, In a l -> In a (live_ids L f)) ->
+  exists pairs, with_labels f l = Some pairs /\ map fst pairs = l /\ incl pairs (iter_args L f).
+Proof.
+  intros Hinv. unfold LabelRouteDefs.with_labels. induction l as [|a r IH]; intros Hl.
+  - exists []. cbn [map all_some]. repeat split. intros x [].
+  - destruct (IH (fun x Hx => Hl x (or_intror Hx))) as [pairs [H1 [H2 H3]]].
+    destruct (live_arg f a Hinv (Hl a (or_introl eq_refl))) as [lb Hlb].
+    exists ((a, lb) :: pairs). cbn [map all_some]. rewrite Hlb, H1. cbn [fst].
+    split; [reflexivity|]. split; [now rewrite H2|].
+    intros x [<-|Hx]; [now apply (arg_of_iter f a lb Hinv)|now apply H3].
+Qed.
+
+(* a duplicate-free list of live ids denotes a list of arguments of f without repetition, neither
+   of ids nor of labels *)
+Lemma with_labels_answer f l : Inv f -> NoDup l -> (forall a, In a l -> In a (live_ids L f)) ->
+  exists pairs, with_labels f l = Some pairs /\ map fst pairs = l /\ incl pairs (iter_args L f) /\
+                NoDup pairs /\ NoDup (map snd pairs).
+Proof.
+  intros Hinv Hnd Hl. destruct (with_labels_live f l Hinv Hl) as [pairs [H1 [H2 H3]]].
+  exists pairs. split; [exact H1|]. split; [exact H2|]. split; [exact H3|].
+  assert (Hp : NoDup pairs) by (apply (NoDup_map_inv fst); now rewrite H2).
+  split; [exact Hp|].
+  clear H1 H2 Hl Hnd l. induction pairs as [|[a lb] r IH]; cbn [map snd]; [constructor|].
+  inversion Hp as [|? ? Hx Hr]; subst.
+  constructor; [|apply IH; [intros x Hxr; apply H3; now right|exact Hr]].
+  intros Hin. apply in_map_iff in Hin. destruct Hin as [[b lb'] [E Hb]]. cbn [snd] in E. subst lb'.
+  assert (Ha : In (a, lb) (iter_args L f)) by (apply H3; now left).
+  assert (Hb' : In (b, lb) (iter_args L f)) by (apply H3; now right).
+  apply (arg_of_iter f a lb Hinv) in Ha. apply (arg_of_iter f b lb Hinv) in Hb'.
+  rewrite (label_inj f a b lb Hinv Ha Hb') in Hx. contradiction.
+Qed.
+
+Section OneComponent.
+Variable f : fw.
+Variable c : comp.
+Variable cf : fw.
+Hypothesis Hinv : Inv f.
+Hypothesis Hgood : good_ids f (c_ids c).
+Hypothesis Hcs : comp_store f (c_ids c) = Some cf.
+
+Lemma to_local_lab_cc a : to_local_lab f cf a = cc_local c a.
+Proof. exact (to_local_lab_index f (c_ids c) cf Hinv Hgood Hcs a). Qed.
+
+Lemma locals_lab_eq al : locals_lab f cf al = locals c al.
+Proof.
+  rewrite locals_all_some. unfold LabelRouteDefs.locals_lab. apply all_some_ext.
+  intros a _. apply to_local_lab_cc.
+Qed.
+
+Lemma to_global_lab_cc i : i < length (c_ids c) ->
+  to_global_lab f cf i = arg_of f (cc_global c i) /\
+  exists l, to_global_lab f cf i = Some (cc_global c i, l) /\ In (cc_global c i, l) (iter_args L f).
+Proof.
+  intros Hi. destruct (to_global_lab_nth f (c_ids c) cf Hinv Hgood Hcs i) as [H _].
+  destruct (H Hi) as [H1 [l H2]]. unfold cc_global. split; [exact H1|].
+  exists l. split; [now rewrite H1|]. now apply (arg_of_iter f _ l Hinv).
+Qed.
+
+Lemma to_global_lab_out i : length (c_ids c) <= i -> to_global_lab f cf i = None.
+Proof. intros Hi. now apply (to_global_lab_nth f (c_ids c) cf Hinv Hgood Hcs i). Qed.
+
+Lemma lift_lab_eq la : (forall i, In i la -> i < length (c_ids c)) ->
+  lift_lab f cf la = with_labels f (lift c la).
+Proof.
+  intros Hla. unfold LabelRouteDefs.lift_lab, LabelRouteDefs.with_labels, lift. rewrite map_map.
+  apply all_some_ext. intros i Hi. now apply to_global_lab_cc, Hla.
+Qed.
+
+Lemma lift_lab_panic la i : In i la -> length (c_ids c) <= i -> lift_lab f cf la = None.
+Proof.
+  intros Hi Hle. unfold LabelRouteDefs.lift_lab. apply all_some_None_in.
+  rewrite <- (to_global_lab_out i Hle). now apply in_map.
+Qed.
+
+Lemma lift_live la : (forall i, In i la -> i < length (c_ids c)) ->
+  forall a, In a (lift c la) -> In a (live_ids L f).
+Proof.
+  intros Hla a Ha. apply (proj2 Hgood). apply (lift_incl c la); [|exact Ha].
+  intros i Hi. apply in_seq. specialize (Hla i Hi). lia.
+Qed.
+
+Lemma lift_lab_spec la : (forall i, In i la -> i < length (c_ids c)) ->
+  exists pairs, lift_lab f cf la = Some pairs /\ with_labels f (lift c la) = Some pairs /\
+    map fst pairs = lift c la /\ incl pairs (iter_args L f) /\
+    (NoDup la -> NoDup pairs /\ NoDup (map snd pairs)).
+Proof.
+  intros Hla. rewrite (lift_lab_eq la Hla).
+  destruct (with_labels_live f (lift c la) Hinv (lift_live la Hla)) as [pairs [H1 [H2 H3]]].
+  exists pairs. split; [exact H1|]. split; [exact H1|]. split; [exact H2|]. split; [exact H3|].
+  intros Hnd.
+  assert (Hl : NoDup (lift c la)).
+  { apply lift_NoDup; [exact (proj1 Hgood)|exact Hnd|].
+    intros i Hi. apply in_seq. specialize (Hla i Hi). lia. }
+  destruct (with_labels_answer f (lift c la) Hinv Hl (lift_live la Hla)) as [pairs' [G1 [_ [_ [G4 G5]]]]].
+  assert (pairs' = pairs) by congruence. subst pairs'. split; assumption.
+Qed.
+End OneComponent.
+
+(* several components: one component store and one local list per component *)
+Lemma comp_stores_cons f c r cfs : comp_stores f (c :: r) = Some cfs ->
+  exists cf cfs', cfs = cf :: cfs' /\ comp_store f (c_ids c) = Some cf /\ comp_stores f r = Some cfs'.
+Proof.
+  unfold LabelRouteDefs.comp_stores. cbn [map all_some].
+  destruct (comp_store f (c_ids c)) as [cf|]; [|discriminate].
+  destruct (all_some (map (fun c0 => comp_store f (c_ids c0)) r)) as [cfs'|]; [|discriminate].
+  intros [= <-]. now exists cf, cfs'.
+Qed.
+
+Definition in_range (c : comp) (La : list nat) : Prop := forall i, In i La -> i < length (c_ids c).
+
+Theorem glue_lab_eq f : Inv f -> forall ccs Ls, Forall2 in_range ccs Ls ->
+  forall cfs, (forall c, In c ccs -> good_ids f (c_ids c)) -> comp_stores f ccs = Some cfs ->
+  glue_lab f cfs Ls = with_labels f (glue ccs Ls).
+Proof.
+  intros Hinv ccs Ls H2. induction H2 as [|c La ccs Ls Hr _ IH]; intros cfs Hgood Hcs.
+  - destruct cfs; reflexivity.
+  - destruct (comp_stores_cons f c ccs cfs Hcs) as [cf [cfs' [-> [Hc Hrest]]]].
+    cbn [LabelRouteDefs.glue_lab glue].
+    rewrite (lift_lab_eq f c cf Hinv (Hgood c (or_introl eq_refl)) Hc La Hr).
+    rewrite (IH cfs' (fun c0 H0 => Hgood c0 (or_intror H0)) Hrest).
+    unfold LabelRouteDefs.with_labels. rewrite map_app, all_some_app. reflexivity.
+Qed.
+
+Lemma glue_live f ccs Ls : Forall2 in_range ccs Ls -> (forall c, In c ccs -> good_ids f (c_ids c)) ->
+  forall a, In a (glue ccs Ls) -> In a (live_ids L f).
+Proof.
+  intros H2. induction H2 as [|c La ccs Ls Hr _ IH]; intros Hgood a; cbn [glue]; [intros []|].
+  intros Hin. apply in_app_or in Hin. destruct Hin as [Hin|Hin].
+  - apply (proj2 (Hgood c (or_introl eq_refl))). apply (lift_incl c La); [|exact Hin].
+    intros i Hi. apply in_seq. specialize (Hr i Hi). lia.
+  - apply IH; [intros c0 H0; apply Hgood; now right|exact Hin].
+Qed.
+
+Theorem glue_lab_spec f : Inv f -> forall ccs Ls, Forall2 in_range ccs Ls ->
+  forall cfs, (forall c, In c ccs -> good_ids f (c_ids c)) -> comp_stores f ccs = Some cfs ->
+  exists pairs, glue_lab f cfs Ls = Some pairs /\ with_labels f (glue ccs Ls) = Some pairs /\
+    map fst pairs = glue ccs Ls /\ incl pairs (iter_args L f) /\
+    (NoDup (glue ccs Ls) -> NoDup pairs /\ NoDup (map snd pairs)).
+Proof.
+  intros Hinv ccs Ls H2 cfs Hgood Hcs. rewrite (glue_lab_eq f Hinv ccs Ls H2 cfs Hgood Hcs).
+  pose proof (glue_live f ccs Ls H2 Hgood) as Hlive.
+  destruct (with_labels_live f _ Hinv Hlive) as [pairs [H1 [H3 H4]]].
+  exists pairs. split; [exact H1|]. split; [exact H1|]. split; [exact H3|]. split; [exact H4|].
+  intros Hnd. destruct (with_labels_answer f _ Hinv Hnd Hlive) as [pairs' [G1 [_ [_ [G4 G5]]]]].
+  assert (pairs' = pairs) by congruence. subst pairs'. split; assumption.
+Qed.
+
+(* the component stores exist for the components the model extracts *)
+Definition model_comp (f : fw) (c : comp) : Prop :=
+  good_ids f (c_ids c) /\ extract_cc (view_of_fw f) (c_ids c) = Some c.
+
+Theorem comp_stores_exist f : Inv f -> max_argument_id L f <> None ->
+  forall ccs, (forall c, In c ccs -> model_comp f c) ->
+  exists cfs, comp_stores f ccs = Some cfs /\
+    Forall2 (fun c cf => comp_store f (c_ids c) = Some cf /\
+                         view_same (view_of_af (c_af c)) (view_of_fw cf) /\
+                         CompProofs.af_of cf = c_af c) ccs cfs.
+Proof.
+  intros Hinv Hmax. unfold LabelRouteDefs.comp_stores.
+  induction ccs as [|c r IH]; intros Hall.
+  - exists []. split; [reflexivity|constructor].
+  - destruct (IH (fun c0 H0 => Hall c0 (or_intror H0))) as [cfs [H1 H2]].
+    destruct (Hall c (or_introl eq_refl)) as [Hg He].
+    pose proof (comp_store_extract f (c_ids c) Hinv Hg Hmax) as Hx. rewrite He in Hx.
+    destruct Hx as [cf [labels [G1 [_ [_ [_ [_ [_ [G7 G8]]]]]]]]].
+    exists (cf :: cfs). cbn [map all_some]. rewrite G1, H1. split; [reflexivity|].
+    constructor; [|exact H2]. split; [exact G1|]. split; [exact G7|exact G8].
+Qed.
+
 End LabelRoute.
